@@ -52,8 +52,9 @@ META = {
         "compared prefixes, terminator regexes), charrefs are not converted, void_elements covers the 13 WHATWG void "
         "elements, attribute values that the stdlib unescapes are re-escaped on output; (R4) with inplace false no mutating, iterating "
         "or returning use in strip() can see the element itself (aliases of self are tracked through assignments and conditional "
-        "expressions; only paths consistent with inplace == False count), and constructors copy the attribute mapping; (R5) enclose() pops "
-        "nothing on the no-match path and at most the match depth otherwise, the opening-tag function pushes exactly the "
+        "expressions; only paths consistent with inplace == False count), and constructors copy the attribute mapping; (R5) enclose(), run as a decision table "
+        "over abstract open-element stacks of depth 1-4 x every name-match pattern, pops exactly down to the innermost matching "
+        "element and nothing when none matches, the opening-tag function pushes exactly the "
         "new element, all other nest functions leave the stack alone; (R6) no exception escapes tokenize_html or any "
         "HTMLParser callback; (R7) walk() is pre-order in list order without duplicates and find() filters it in order "
         "with subset / all-keys semantics (the body of the candidate loop is evaluated as a 64-row truth table over the name "
@@ -249,6 +250,16 @@ def _check_addition(corpus: Corpus, fi: FunctionInfo, stmt: ast.stmt, item_expr:
     """Every path from a binding of the item to the addition establishes item._parent == self."""
     key = f"{fi.fq}|parent set before {what}"
     site = fi.module.site(stmt)
+    if isinstance(item_expr, ast.Call) and isinstance(item_expr.func, ast.Attribute) and _is_name(item_expr.func.value, "self") and fi.cls is not None and len(item_expr.args) == 1 and not item_expr.keywords:
+        # self.helper(x) as the item: the helper stores <param>._parent = self on every normal path and returns that parameter
+        helper = corpus.lookup_method(fi.cls, item_expr.func.attr)
+        hp = [p for p in helper.params if p != "self"] if helper is not None else []
+        if helper is not None and len(hp) >= 1 and len(_bindings(helper, hp[0])) == 1:
+            hest = _established_nodes(helper, hp[0], 1)
+            rets = [n for n in walk_local(helper.node) if isinstance(n, ast.Return)]
+            if hest and rets and all(_is_name(r.value, hp[0]) for r in rets) and not get_cfg(helper).paths_avoiding("ENTRY", "EXIT", lambda x: x in hest):
+                rep.ok("C16.R1", key, site, f"the item passes through {helper.qualname}(), which stores its _parent = self on every path and returns it")
+                return
     if not isinstance(item_expr, ast.Name):
         raise Unsupported(f"{fi.fq}: item added to _children is not a plain name: {short(item_expr, 50)}")
     item = item_expr.id
@@ -503,7 +514,7 @@ def r2_fresh_insertion(corpus: Corpus, rep: Report, tier: str):
                 rep.ok("C16.R2", key, fi.module.site(r), why)
             else:
                 rep.violation("C16.R2", key, fi.module.site(r), f"`{short(r, 50)}`: deepcopy hands out an object that is not constructed here (e.g. self): the copy shares nodes with the original, and appending it to the copied parent trips `different parent already set`")
-    rep.expect_min("C16.R2", 7, "5 insertions (4 nest_* + deepcopy) and 2 deepcopy returns on the pinned tree")
+    rep.expect_min("C16.R2", 4, "5 insertions (4 nest_* + deepcopy; fewer when they share a helper) and 2 deepcopy returns on the pinned tree")
 
 
 def _check_param_item(P: Ctx, fi: FunctionInfo, name: str, key: str, site: str, rep: Report) -> None:
@@ -843,8 +854,46 @@ def _store_kind(val: ast.expr, pname: str) -> str:
 # -- render templates -----------------------------------------------------------------
 
 
+def _module_str(e: ast.expr):
+    """Value of a module-level string constant named by ``e`` (hoisted literal), else None."""
+    if isinstance(e, ast.Name) and getattr(e, "_mod", None) is not None and e.id in e._mod.const_nodes:
+        try:
+            v = e._mod.eval_const(e._mod.const_nodes[e.id])
+        except Unsupported:
+            return None
+        return v if isinstance(v, str) else None
+    return None
+
+
+def _single_local_value(e: ast.Name) -> ast.expr | None:
+    fi = enclosing_function(e)
+    if fi is None or fi.is_lambda or e.id in fi.params or not isinstance(e.ctx, ast.Load):
+        return None
+    binds = _bindings(fi, e.id)
+    if len(binds) == 1 and isinstance(binds[0], (ast.Assign, ast.AnnAssign)) and binds[0].value is not None and binds[0].lineno < e.lineno:
+        tgt = binds[0].targets[0] if isinstance(binds[0], ast.Assign) else binds[0].target
+        if isinstance(tgt, ast.Name) and get_cfg(fi).loops.get(binds[0]) is None:
+            return binds[0].value
+    return None
+
+
+def _resolve_name(e: ast.expr, _depth: int = 0) -> ast.expr:
+    """Replace a hoisted module-level string constant / a local bound once by the expression it stands for."""
+    while isinstance(e, ast.Name) and _depth < 6:
+        _depth += 1
+        ms = _module_str(e)
+        if ms is not None:
+            return ast.Constant(ms)
+        v = _single_local_value(e)
+        if v is None:
+            break
+        e = v
+    return e
+
+
 def _template(e: ast.expr) -> list:
     """[('lit', str) | ('hole', expr)] for string-building expressions."""
+    e = _resolve_name(e)
     if isinstance(e, ast.Constant) and isinstance(e.value, str):
         parts = [("lit", e.value)]
     elif isinstance(e, ast.JoinedStr):
@@ -853,7 +902,8 @@ def _template(e: ast.expr) -> list:
             if isinstance(v, ast.Constant):
                 parts.append(("lit", v.value))
             elif isinstance(v, ast.FormattedValue) and v.conversion == -1 and v.format_spec is None:
-                parts += _template(v.value) if isinstance(v.value, (ast.Constant, ast.JoinedStr)) else [("hole", v.value)]
+                vv = _resolve_name(v.value)
+                parts += _template(vv) if isinstance(vv, (ast.Constant, ast.JoinedStr)) else [("hole", vv)]
             else:
                 raise Unsupported(f"formatted value with conversion/spec: {short(v, 40)}")
     elif isinstance(e, ast.BinOp) and isinstance(e.op, ast.Add):
@@ -1046,11 +1096,24 @@ def r3_callbacks_and_delimiters(corpus: Corpus, rep: Report, tier: str):
     rep.expect_min("C16.R3", 20, "9 overrides + 6 terminal rows (x2) + 3 tag shapes (x2) + root + void set + charrefs + attribute form on the pinned tree")
 
 
+def _eval_names(mod, e: ast.expr):
+    """Module.eval_const plus set union/difference (`BASE | {...}`, `A - B`)."""
+    if isinstance(e, ast.BinOp) and isinstance(e.op, (ast.BitOr, ast.Sub)):
+        l, r = _eval_names(mod, e.left), _eval_names(mod, e.right)
+        if all(isinstance(x, (set, frozenset)) for x in (l, r)):
+            return set(l) | set(r) if isinstance(e.op, ast.BitOr) else set(l) - set(r)
+        raise Unsupported("set operator on non-sets")
+    if isinstance(e, ast.Call) and dotted(e.func) in ("set", "frozenset") and len(e.args) == 1:
+        v = _eval_names(mod, e.args[0])
+        return set(v)
+    return mod.eval_const(e)
+
+
 def _void_elements(P: Ctx) -> tuple[str, set]:
     for st in P.parser.node.body:
         if isinstance(st, ast.Assign) and len(st.targets) == 1 and isinstance(st.targets[0], ast.Name):
             try:
-                v = P.m.eval_const(st.value)
+                v = _eval_names(P.m, st.value)
             except Unsupported:
                 continue
             if isinstance(v, (set, frozenset, tuple, list)) and "br" in v:
@@ -1496,54 +1559,108 @@ def _is_top_read(P: Ctx, e: ast.expr, fi: FunctionInfo) -> bool:
     return False
 
 
-def _simulate(P: Ctx, fi: FunctionInfo):
-    """Symbolic run of a straight-line nest function: (final stack suffix, popped from base, insertions)."""
-    env: dict[str, str] = {}
-    sym: list[str] = []
-    popped = 0
-    inserts: list[tuple[str, str]] = []
-    for st in fi.node.body:
-        if isinstance(st, ast.Pass) or (isinstance(st, ast.Expr) and isinstance(st.value, ast.Constant)):
-            continue
-        call = st.value if isinstance(st, (ast.Expr, ast.Assign)) and isinstance(st.value, ast.Call) else None
-        tgt = st.targets[0].id if isinstance(st, ast.Assign) and len(st.targets) == 1 and isinstance(st.targets[0], ast.Name) else None
-        if isinstance(st, ast.Assign) and tgt is None:
-            raise Unsupported(f"{fi.fq}: `{short(st, 50)}`")
-        if call is not None and isinstance(call.func, ast.Attribute) and P.is_stack(call.func.value):
-            m = call.func.attr
-            if m == "pop" and not call.args:
-                if sym:
-                    v = sym.pop()
+class _Sim:
+    """Symbolic run of straight-line nest code (one or two levels of Tree helpers are inlined)."""
+
+    def __init__(self, P: Ctx):
+        self.P = P
+        self.sym: list[str] = []  # pushed above the untouched base
+        self.popped = 0  # entries taken from the base
+        self.inserts: list[tuple[str, str]] = []
+        self.n_new = 0
+
+    def value(self, e: ast.expr, fi: FunctionInfo, env: dict[str, str], hint: str = "") -> str | None:
+        P = self.P
+        if isinstance(e, ast.Name):
+            return env.get(e.id)
+        if _is_top_read(P, e, fi):
+            if self.sym:
+                return self.sym[-1]
+            if self.popped == 0:
+                return "T1"
+            raise Unsupported(f"{fi.fq}: top-of-stack read after a pop")
+        if isinstance(e, ast.Call) and isinstance(e.func, ast.Attribute) and P.is_stack(e.func.value) and e.func.attr == "pop" and not e.args:
+            if self.sym:
+                return self.sym.pop()
+            self.popped += 1
+            return f"T{self.popped}"
+        if _fresh_ctor(P, e, fi):
+            self.n_new += 1
+            return f"NEW:{hint or 'element'}" + ("" if self.n_new == 1 else f"#{self.n_new}")
+        if isinstance(e, ast.Call) and isinstance(e.func, ast.Attribute) and _is_name(e.func.value, "self") and e.func.attr in P.tree.methods:
+            return self.call(e, fi, env)
+        return None
+
+    def call(self, call: ast.Call, fi: FunctionInfo, env: dict[str, str], depth: int = 0) -> str | None:
+        callee = self.P.tree.methods[call.func.attr]
+        if callee.fq == fi.fq or len(env.get("__depth__", "")) >= 2:
+            raise Unsupported(f"{fi.fq}: helper nesting too deep at `{short(call, 40)}`")
+        params = [p for p in callee.params if p != "self"]
+        cenv: dict[str, str] = {"__depth__": env.get("__depth__", "") + "x"}
+        for i, p in enumerate(params):
+            arg = call.args[i] if i < len(call.args) else next((k.value for k in call.keywords if k.arg == p), None)
+            if arg is None:
+                continue  # default value: not an element
+            v = self.value(arg, fi, env, p)
+            if v is not None:
+                cenv[p] = v
+        return self.run(callee, cenv)
+
+    def run(self, fi: FunctionInfo, env: dict[str, str]) -> str | None:
+        P = self.P
+        for st in fi.node.body:
+            if isinstance(st, ast.Pass) or (isinstance(st, ast.Expr) and isinstance(st.value, ast.Constant)):
+                continue
+            if isinstance(st, ast.Return):
+                return self.value(st.value, fi, env) if st.value is not None else None
+            if isinstance(st, (ast.Assign, ast.AnnAssign)):
+                tgt = st.targets[0] if isinstance(st, ast.Assign) and len(st.targets) == 1 else getattr(st, "target", None)
+                if not isinstance(tgt, ast.Name) or st.value is None:
+                    raise Unsupported(f"{fi.fq}: `{short(st, 50)}`")
+                v = self.value(st.value, fi, env, tgt.id)
+                if v is None:
+                    raise Unsupported(f"{fi.fq}: `{short(st, 50)}` is not an element, a stack entry or a helper result")
+                env[tgt.id] = v
+                continue
+            call = st.value if isinstance(st, ast.Expr) and isinstance(st.value, ast.Call) else None
+            if call is None or not isinstance(call.func, ast.Attribute):
+                raise Unsupported(f"{fi.fq}: statement `{short(st, 50)}` outside the straight-line nest idiom")
+            if P.is_stack(call.func.value):
+                if call.func.attr == "pop" and not call.args:
+                    self.value(call, fi, env)
+                elif call.func.attr == "append" and len(call.args) == 1:
+                    v = self.value(call.args[0], fi, env, "element")
+                    if v is None:
+                        raise Unsupported(f"{fi.fq}: `{short(st, 50)}` pushes an untracked value")
+                    self.sym.append(v)
                 else:
-                    popped += 1
-                    v = f"T{popped}"
-                if tgt:
-                    env[tgt] = v
-            elif m == "append" and len(call.args) == 1 and isinstance(call.args[0], ast.Name) and call.args[0].id in env and tgt is None:
-                sym.append(env[call.args[0].id])
+                    raise Unsupported(f"{fi.fq}: stack operation `{short(st, 50)}`")
+            elif _is_name(call.func.value, "self") and call.func.attr in P.tree.methods:
+                self.call(call, fi, env)
+            elif call.func.attr in ("append", "insert") and call.args:
+                rv = self.value(call.func.value, fi, env)
+                av = self.value(call.args[-1], fi, env, "element")
+                if rv is None or av is None:
+                    raise Unsupported(f"{fi.fq}: `{short(st, 50)}` uses an untracked name")
+                self.inserts.append((rv, av))
             else:
-                raise Unsupported(f"{fi.fq}: stack operation `{short(st, 50)}`")
-        elif isinstance(st, ast.Assign) and _is_top_read(P, st.value, fi):
-            if sym:
-                env[tgt] = sym[-1]
-            elif popped == 0:
-                env[tgt] = "T1"
-            else:
-                raise Unsupported(f"{fi.fq}: top-of-stack read after a pop")
-        elif isinstance(st, ast.Assign) and _fresh_ctor(P, st.value, fi):
-            env[tgt] = f"NEW:{tgt}"
-        elif isinstance(st, ast.Expr) and call is not None and isinstance(call.func, ast.Attribute) and call.func.attr in ("append", "insert") and call.args and isinstance(call.args[-1], ast.Name):
-            recv, a = call.func.value, call.args[-1].id
-            if isinstance(recv, ast.Name) and recv.id in env and a in env:
-                rv = env[recv.id]
-            elif _is_top_read(P, recv, fi) and a in env and (sym or popped == 0):
-                rv = sym[-1] if sym else "T1"
-            else:
-                raise Unsupported(f"{fi.fq}: `{short(st, 50)}` uses an untracked name")
-            inserts.append((rv, env[a]))
-        else:
-            raise Unsupported(f"{fi.fq}: statement `{short(st, 50)}` outside the straight-line nest idiom")
-    return sym, popped, inserts
+                raise Unsupported(f"{fi.fq}: statement `{short(st, 50)}` outside the straight-line nest idiom")
+        return None
+
+
+def _simulate(P: Ctx, fi: FunctionInfo):
+    """(final stack suffix, popped from base, insertions) of a nest function."""
+    sim = _Sim(P)
+    sim.run(fi, {})
+    return sim.sym, sim.popped, sim.inserts
+
+
+def _tree_callees(P: Ctx, fi: FunctionInfo) -> list[FunctionInfo]:
+    out = []
+    for n in walk_local(fi.node):
+        if isinstance(n, ast.Call) and isinstance(n.func, ast.Attribute) and _is_name(n.func.value, "self") and n.func.attr in P.tree.methods:
+            out.append(P.tree.methods[n.func.attr])
+    return out
 
 
 @rule("C16.R5")
@@ -1562,6 +1679,16 @@ def r5_stack_discipline(corpus: Corpus, rep: Report, tier: str):
     if len(push_fns) != 1 or len(pop_fns) != 1:
         raise Unsupported(f"expected one opening and one closing Tree function, found {sorted(push_fns)} / {sorted(pop_fns)}")
     reset_fns = {P.tree.methods[n].fq for n in ("__init__", "clear") if n in P.tree.methods}
+    # private Tree helpers (not reached from a callback directly): judged through their callers
+    roles = {**push_fns, **pop_fns, **leaf_fns, **{fq: P.m.functions[fq.split(":", 1)[1]] for fq in reset_fns}}
+    helper_of: dict[str, set[str]] = {}
+    for fq, f in list(roles.items()):
+        for h in _tree_callees(P, f):
+            if h.fq not in roles:
+                helper_of.setdefault(h.fq, set()).add(fq)
+                for h2 in _tree_callees(P, h):
+                    if h2.fq not in roles:
+                        helper_of.setdefault(h2.fq, set()).add(fq)
     # every writer of the stack has one of the known roles
     for fi in P.m.functions.values():
         if fi.is_lambda:
@@ -1571,6 +1698,8 @@ def r5_stack_discipline(corpus: Corpus, rep: Report, tier: str):
             site = fi.module.site(op)
             if fi.fq in push_fns or fi.fq in pop_fns or fi.fq in reset_fns:
                 rep.ok("C16.R5", key, site, "opening / closing / reset function")
+            elif fi.fq in helper_of:
+                rep.ok("C16.R5", key, site, f"helper of {', '.join(sorted(x.split(':')[1] for x in helper_of[fi.fq]))}: judged through the symbolic run of its callers")
             elif fi.fq in leaf_fns:
                 rep.violation("C16.R5", key, site, f"{fi.qualname} builds a childless node (terminal, void or self-closing tag) but changes the open-element stack: following siblings are nested inside it / the enclosing element is closed early")
             else:
@@ -1593,7 +1722,10 @@ def r5_stack_discipline(corpus: Corpus, rep: Report, tier: str):
         if _stack_ops(P, fi):
             continue  # reported above
         sym, popped, inserts = _simulate(P, fi)
-        if len(inserts) == 1 and inserts[0][0] == "T1" and inserts[0][1].startswith("NEW:"):
+        base = [f"T{k}" for k in range(popped, 0, -1)]
+        if sym != base:
+            rep.violation("C16.R5", key, fi.site(), f"{fi.qualname} builds a childless node but leaves the open-element stack as [.., {', '.join(x.replace('NEW:', '') for x in sym) or '-'}] after taking {popped} entr{'y' if popped == 1 else 'ies'} from it: following siblings are nested inside the node / the enclosing element is closed early")
+        elif len(inserts) == 1 and inserts[0][0] == "T1" and inserts[0][1].startswith("NEW:"):
             rep.ok("C16.R5", key, fi.site())
         else:
             raise Unsupported(f"{fq}: insertions {inserts}")
@@ -1681,6 +1813,16 @@ class _EncloseRun:
             d = dotted(e.func)
             if isinstance(e.func, ast.Attribute) and P.is_stack(e.func.value) and e.func.attr == "pop" and not e.args:
                 return self.pop()
+            if d in ("any", "all") and len(e.args) == 1 and isinstance(e.args[0], (ast.GeneratorExp, ast.ListComp)) and len(e.args[0].generators) == 1:
+                gen = e.args[0].generators[0]
+                seq = self.ev(gen.iter)
+                if isinstance(seq, list):
+                    res = []
+                    for item in seq:
+                        self.bind(gen.target, item)
+                        if all(self.truth(self.ev(c)) for c in gen.ifs):
+                            res.append(self.truth(self.ev(e.args[0].elt)))
+                    return any(res) if d == "any" else all(res)
             args = [self.ev(a_) for a_ in e.args]
             kw = {k.arg: self.ev(k.value) for k in e.keywords}
             if d == "len" and len(args) == 1 and isinstance(args[0], list):
@@ -2101,6 +2243,9 @@ class _FindRun:
             if isinstance(r, ast.Constant) and r.value is None and isinstance(op, (ast.Is, ast.IsNot)) and isinstance(l, ast.Name) and l.id in ("classes", "attrs"):
                 v = self.G if l.id == "classes" else self.attrs != "none"
                 return v if isinstance(op, ast.IsNot) else not v
+            if isinstance(r, ast.Constant) and isinstance(r.value, bool) and isinstance(op, (ast.Is, ast.IsNot, ast.Eq, ast.NotEq)) and isinstance(l, (ast.Call, ast.Name, ast.BoolOp, ast.UnaryOp)):
+                lv = self.ev(l)
+                return (lv == r.value) if isinstance(op, (ast.Is, ast.Eq)) else (lv != r.value)
             if self.cur is not None and isinstance(op, (ast.Eq, ast.NotEq)):
                 k, v, m = self.cur
                 sides = [l, r]
